@@ -149,3 +149,15 @@ Example C09_programs_nonvacuous :
   let '(s2, r2) := run_calls (fun _ _ x => x) (fun _ => 7) (new_writer []) calls in
   forallb (fun r => match r with RUnit (Ok _) | RBytes (Ok _) => true | _ => false end) r1 = true /\ r1 = r2.
 Proof. vm_compute. split; reflexivity. Qed.
+
+(* the same, call by call, from ANY pair of writer states that agree on everything except the unconsumed plans of their
+   (failure-free) sinks: relation R of Proofs/ChunkSim.v.  This is what lifts every ideal-sink theorem about a single
+   call (raw copy C14, aligned entries C17, closing an encrypted entry C15, append C13) to sinks that split writes. *)
+Theorem C09_call_chunk_independent : forall enc crc s1 s2 c s1' r,
+  R s1 s2 -> do_call enc crc s1 c = (s1', r) -> call_not_large r ->
+  exists s2', do_call enc crc s2 c = (s2', r) /\ R s1' s2' /\ sink_bytes s1' = sink_bytes s2'.
+Proof.
+  intros enc crc s1 s2 c s1' r HR H Hnl. destruct (do_call_sim enc crc s1 s2 c s1' r HR H Hnl) as (s2' & E & HR').
+  exists s2'. split; [exact E|]. split; [exact HR'|exact (R_sink _ _ HR')].
+Qed.
+Print Assumptions C09_call_chunk_independent.
